@@ -402,6 +402,19 @@ class Program:
         self._fp = None
         self._callers = None
 
+    def api_symbols(self):
+        """exported symbols of libxcm: the linker version script of the build"""
+        import re
+        p = os.path.join(X.REPO, "libxcm/libxcm.vs")
+        try:
+            txt = open(p).read()
+        except OSError:
+            raise X.AnalysisBroken("anchor vanished: libxcm/libxcm.vs")
+        syms = set(re.findall(r"^\s*([A-Za-z_][A-Za-z_0-9]*);", txt, re.M))
+        if len(syms) < 40:
+            raise X.AnalysisBroken("version script lists only %d symbols" % len(syms))
+        return syms
+
     # --- lookups ------------------------------------------------------------
     def fn(self, name, file=None):
         """the unique definition of `name` (optionally in file ending with `file`)."""
